@@ -298,6 +298,10 @@ def body_summary(ctx, case):
     agg = ctx.must("aggregate_raises", ErrorsSummary.aggregate, sums)
     got = summary_fields(agg)
     ctx.check(got == want, "aggregate_not_sum", lambda: "case=%r got %r want %r" % (case, got, want))
+    # any iterable of summaries (callers pass generator expressions and map objects as well as lists)
+    for label, it in (("generator", (x for x in sums)), ("tuple", tuple(sums)), ("map", map(lambda x: x, sums))):
+        got_it = summary_fields(ctx.must("aggregate_raises", ErrorsSummary.aggregate, it))
+        ctx.check(got_it == want, "aggregate_depends_on_container_type", lambda: "%s: got %r want %r; case=%r" % (label, got_it, want, case))
     # inputs not modified by aggregation
     ctx.check([summary_fields(s) for s in sums] == singles, "aggregate_mutates_inputs", lambda: "case=%r" % (case,))
     if len(sums) >= 3:
